@@ -135,6 +135,9 @@ def handle (op : String) (args : List PyVal) : Option (List PyVal) :=
     if !coveredObj t d then none
     let h := fun v => (lookupDigest t v).getD []
     pure [ofStr (writeEvent h b d)]
+  | "eventtext", [.dict base, .str msg] => do
+    let b ← decodeBase base
+    pure [ofStr (writeEventText b msg.toList)]
   | "url", [.str s] =>
     let t := s.toList
     some [ofStr (if isInfix Gen.Sanitise.urlGuard t then redactUrl t else t)]
